@@ -581,6 +581,7 @@ def build_pipeline_inspection(
     all_created_keys: set[str] = set()  # All keys created by any node
     # Keys that must be supplied by the initial context (order-sensitive)
     required_context_keys: set[str] = set()
+    deleted_before_node: Dict[int, set[str]] = {}
     errors: List[str] = []
 
     # Process each node configuration
@@ -737,6 +738,7 @@ def build_pipeline_inspection(
         # A required key that no earlier node provides must come from the initial
         # context; a key deleted by an earlier node cannot be supplied at all.
         deleted_before = set(deleted_keys)
+        deleted_before_node[index] = deleted_before
         available_before = set(key_origin) - deleted_before
         required_context_keys.update(
             required_params
@@ -843,6 +845,16 @@ def build_pipeline_inspection(
 
     # Pipeline-level required context keys were accumulated per node above:
     # parameters required by a node and not provided by any earlier node
+
+    # A defaulted parameter whose name is a required initial-context key resolves
+    # from that context at run time (context overrides defaults), not from the default.
+    for node_inspection in inspection_nodes:
+        gone = deleted_before_node.get(node_inspection.index, set())
+        for name in list(node_inspection.default_params):
+            if name in required_context_keys and name not in gone:
+                node_inspection.default_params.pop(name)
+                node_inspection.config_params.pop(name, None)
+                node_inspection.context_params[name] = None
 
     return PipelineInspection(
         nodes=inspection_nodes,
